@@ -4,16 +4,19 @@ import core
 from core import log
 
 
-def proof_stage(rep, prop, extra_targets=()):
+def proof_stage(rep, prop, pre_broken=None):
     """make Props/<prop>.vo; hygiene; Print Assumptions.  Returns (ok, info)."""
     pv = "Props/%s.v" % prop
     deps = core.coq_deps(pv)
-    ok, out = core.coq_make(["Props/%s.vo" % prop] + list(extra_targets))
+    if pre_broken:
+        total, done, detail = core.count_obligations(deps)
+        rep.cov["obligations"], rep.cov["discharged"] = total, 0
+        return False, pre_broken[0]
+    ok, out = core.coq_make(["Props/%s.vo" % prop])
     total, done, detail = core.count_obligations(deps)
     rep.cov["obligations"] = total
     rep.cov["discharged"] = done
     rep.cov["proof_files"] = detail
-    info = None
     if not ok:
         info = core.failing_lemma(out) or {"file": None, "lemma": None, "error": out[-2000:]}
         log("proof obligation broken: %s" % (info.get("lemma") or info.get("file")))
@@ -29,3 +32,16 @@ def proof_stage(rep, prop, extra_targets=()):
         return False, {"file": pv, "lemma": "Print Assumptions", "error": "axioms: %s\n%s" % (axioms, aout[-1500:])}
     rep.assumptions.append("Print Assumptions: %d theorems closed under the global context, no axioms" % closed)
     return True, None
+
+
+def conclude(rep, ok, info, bad, fmt=None, limit=5):
+    """Standard ending: concrete failing inputs if any, otherwise the broken
+    obligation with no-failing-input-found."""
+    for b in bad[:limit]:
+        rep.violation(fmt(b) if fmt else str(b.get("what")), b)
+    if not ok and not bad:
+        rep.violation(
+            "obligation `%s` no longer checks and no failing input was found" % (info.get("lemma") or info.get("file")),
+            {"broken": info},
+            found_input=False,
+        )
